@@ -1,29 +1,122 @@
 (* C10 - UDP.  Only statements, each closed by [exact] of a lemma proved in
-   Proofs/UdpProofs.v, with Print Assumptions beneath.  [fx] is the index arithmetic
-   of the sendmmsg loop of uv__udp_sendmsgv (false = as written in the tree,
-   true = repaired); [sendmsgv_fixed] says which one the tree has. *)
+   Proofs/UdpProofs.v, with Print Assumptions beneath.
+
+   [run fx beh rbeh (init conn mm o r al) ops] is the trace of an arbitrary script [ops]
+   (uv_udp_send / try_send / try_send2 / recv_start / recv_stop / close / getters /
+   uv_run(NOWAIT) steps with any kernel readiness) on a fresh handle (connected or not,
+   with or without UV_UDP_RECVMMSG), with arbitrary behaviour of the send callbacks [beh]
+   and receive callbacks [rbeh], arbitrary sendmsg/sendmmsg answers [o], recvmsg/recvmmsg
+   answers [r] and alloc_cb results [al].  [fx] is the index arithmetic of the sendmmsg
+   loop of uv__udp_sendmsgv (false = as written in the tree, true = repaired);
+   [sendmsgv_fixed] says which one the tree has.  Except for the try_send2 rule every
+   theorem holds for both.
+
+   In a trace, [handed tr] is the list of datagram sequence numbers (= submission order on
+   the handle) handed to the OS, in the order of the system calls; [subs]/[cbs] are the
+   request ids accepted by uv_udp_send / whose send_cb ran; [errs_of] pairs the first
+   datagram of every failed sendmsg/sendmmsg (other than EINTR/EAGAIN/ENOBUFS) with the
+   uv error; [owed_after [] pre] are the requests accepted in [pre] whose callback has not
+   run in [pre]. *)
 From UV Require Import Lib.Base Model.Udp Proofs.UdpProofs.
+From Coq Require Import Sorting.Sorted.
 
 Local Open Scope Z_scope.
 
-(* The try_send2 rule, full statement: whenever uv_udp_try_send2 returns n > 0, the
-   datagrams handed to the OS by that call are exactly the first n of the batch, in
-   order - for every handle state, batch, flags and every sequence of kernel answers. *)
-Definition C10_try_send2_prefix_statement (fx : bool) : Prop :=
-  forall (s : st) (lens : list N) (flags : Z) (s' : st) (ev : list event) (n : Z),
-    udp_try_send2 fx s lens flags = (s', ev) ->
-    In (ETry2 (next_seq s) (length lens) n) ev -> 0 < n ->
-    handed ev = seq (next_seq s) (Z.to_nat n).
+(* Every trace of the model is accepted by the send monitor (Model/Udp.v, mon_step). *)
+Theorem C10_send_monitor_accepts :
+  forall fx beh rbeh conn mm o r al ops,
+  exists m, mon_run mon0 (snd (run fx beh rbeh (init conn mm o r al) ops)) = Some m.
+Proof. exact model_accepted_send. Qed.
+Print Assumptions C10_send_monitor_accepts.
 
-(* Refuted for the code as it is: 50 datagrams, the kernel takes every one it is
-   offered (sendmmsg answers 20, then 10); the call returns 30 having handed over
-   datagrams 0-19 and 40-49. *)
-Theorem C10_try_send2_prefix_refuted :
-  sendmsgv_fixed = false /\ ~ C10_try_send2_prefix_statement sendmsgv_fixed.
-Proof. split; [reflexivity|]. exact try_send2_prefix_false. Qed.
-Print Assumptions C10_try_send2_prefix_refuted.
+(* Each datagram is handed to the OS at most once and datagrams leave in submission
+   order: the sequence numbers handed over are strictly increasing. *)
+Theorem C10_send_once_in_order :
+  forall fx beh rbeh conn mm o r al ops,
+  StronglySorted lt (handed (snd (run fx beh rbeh (init conn mm o r al) ops))).
+Proof.
+  intros. destruct (model_accepted_send fx beh rbeh conn mm o r al ops) as (m & H).
+  exact (accepted_once_in_order _ m H).
+Qed.
+Print Assumptions C10_send_once_in_order.
 
-(* What does hold for the code as it is: the rule for batches of at most 20. *)
+(* Every send request's callback fires exactly once: at every point of a run the callbacks
+   that have run belong to pairwise distinct requests that uv_udp_send accepted before
+   (never twice, never for a request that was not accepted), and when close_cb runs every
+   accepted request has had its callback. *)
+Theorem C10_send_cb_exactly_once :
+  forall fx beh rbeh conn mm o r al ops pre post,
+  snd (run fx beh rbeh (init conn mm o r al) ops) = pre ++ post ->
+  NoDup (subs pre) /\ NoDup (cbs pre) /\ incl (cbs pre) (subs pre) /\
+  (forall post', post = EClosed :: post' -> incl (subs pre) (cbs pre)).
+Proof.
+  intros fx beh rbeh conn mm o r al ops pre post E.
+  destruct (model_accepted_send fx beh rbeh conn mm o r al ops) as (m & H).
+  exact (accepted_cb_exactly_once _ m H pre post E).
+Qed.
+Print Assumptions C10_send_cb_exactly_once.
+
+(* The status passed to send_cb is 0 exactly when the request's datagram was handed to the
+   OS; otherwise it is the error of the failed system call whose first datagram it was, or
+   UV_ECANCELED and uv_close was called before. *)
+Theorem C10_status :
+  forall fx beh rbeh conn mm o r al ops pre post id st,
+  snd (run fx beh rbeh (init conn mm o r al) ops) = pre ++ ECb id st :: post ->
+  exists sq ln, In (ESend id sq ln 0) pre /\
+    ((In sq (handed pre) /\ st = 0) \/
+     (~ In sq (handed pre) /\ st <> 0 /\
+      (In (sq, st) (errs_of pre) \/ (st = UV_ECANCELED /\ In EClose pre)))).
+Proof.
+  intros fx beh rbeh conn mm o r al ops pre post id st E.
+  destruct (model_accepted_send fx beh rbeh conn mm o r al ops) as (m & H).
+  exact (accepted_status _ m H pre post id st E).
+Qed.
+Print Assumptions C10_status.
+
+(* uv_udp_get_send_queue_count/size, wherever they are called (also inside callbacks),
+   return the number / bytes of the requests still owed a callback. *)
+Theorem C10_queue_getters_exact :
+  forall fx beh rbeh conn mm o r al ops pre post sz ct act,
+  snd (run fx beh rbeh (init conn mm o r al) ops) = pre ++ EGet sz ct act :: post ->
+  ct = Z.of_nat (length (owed_after [] pre)) /\ sz = owed_bytes (owed_after [] pre).
+Proof.
+  intros fx beh rbeh conn mm o r al ops pre post sz ct act E.
+  destruct (model_accepted_send fx beh rbeh conn mm o r al ops) as (m & H).
+  exact (accepted_getters _ m H pre post sz ct act E).
+Qed.
+Print Assumptions C10_queue_getters_exact.
+
+(* The same on states: in every state reached by a script the two counters are the number
+   and the bytes of the requests in write_queue and write_completed_queue. *)
+Theorem C10_queue_getters_exact_state :
+  forall fx beh rbeh conn mm o r al ops,
+  let s := fst (run fx beh rbeh (init conn mm o r al) ops) in
+  sq_count s = Z.of_nat (length (cq s ++ wq s)) /\ sq_size s = sum_len (cq s ++ wq s).
+Proof. exact getters_state. Qed.
+Print Assumptions C10_queue_getters_exact_state.
+
+(* The try_send2 rule, full statement, is [try_send2_prefix fx] (Proofs/UdpProofs.v):
+     forall s lens flags s' ev n,
+       udp_try_send2 fx s lens flags = (s', ev) ->
+       In (ETry2 (next_seq s) (length lens) n) ev -> 0 < n ->
+       handed ev = seq (next_seq s) (Z.to_nat n)
+   - whenever uv_udp_try_send2 returns n > 0 the datagrams handed to the OS by that call
+   are exactly the first n of the batch, in order, for every handle state, batch, flags and
+   kernel answers.  Refuted for the code as it is: 50 datagrams, the kernel takes all it is
+   offered (sendmmsg answers 20, then 10): the call returns 30 having handed over 0-19 and
+   40-49 (DESIGN.md section 3 item 1). *)
+Theorem C10_try_send2_prefix : try_send2_prefix sendmsgv_fixed.
+Proof. exact try_send2_prefix_fixed. Qed.
+Print Assumptions C10_try_send2_prefix.
+
+(* History: before the repair (/repo commit "fix: uv_udp_try_send2 skipped datagrams after the
+   first sendmmsg chunk") the index was advanced twice and the rule was false; the check
+   still detects that arithmetic should it come back. *)
+Theorem C10_try_send2_prefix_before_fix_refuted : ~ try_send2_prefix false.
+Proof. exact try_send2_prefix_false. Qed.
+Print Assumptions C10_try_send2_prefix_before_fix_refuted.
+
+(* The rule for batches of at most 20 datagrams holds for either arithmetic. *)
 Theorem C10_try_send2_prefix_partial :
   forall (s : st) (lens : list N) (flags : Z) (s' : st) (ev : list event) (n : Z),
     (length lens <= 20)%nat ->
@@ -34,12 +127,81 @@ Proof. exact (try_send2_prefix_small sendmsgv_fixed). Qed.
 Print Assumptions C10_try_send2_prefix_partial.
 
 (* The full statement for the repaired index arithmetic (notes/C10_fix_try_send2.diff);
-   becomes C10_try_send2_prefix once sendmsgv_fixed is true. *)
-Theorem C10_try_send2_prefix_after_fix : C10_try_send2_prefix_statement true.
+   it is C10_try_send2_prefix once sendmsgv_fixed is true. *)
+Theorem C10_try_send2_prefix_after_fix : try_send2_prefix true.
 Proof. exact try_send2_prefix_fixed. Qed.
 Print Assumptions C10_try_send2_prefix_after_fix.
 
-Example C10_try_send2_example :
-  let '(_, ev) := udp_try_send2 sendmsgv_fixed (init false false [SRet 2; SErr 11] [] []) [5; 6; 7]%N 0 in
-  ev = [ESysN [0; 1; 2]%nat (SRet 2); ETry2 0 3 2] /\ handed ev = [0; 1]%nat.
-Proof. vm_compute. auto. Qed.
+(* Every buffer obtained from alloc_cb is handed back exactly once (a recv_cb without
+   UV_UDP_MMSG_CHUNK), chunk callbacks of a buffer come only between its allocation and its
+   hand-back, and after chunk callbacks the hand-back carries UV_UDP_MMSG_FREE - this is
+   what the buffer monitor [bmon_step] checks; at the end of the run no buffer is out.
+   Precondition (DESIGN.md section 3 item 15): no uv_udp_recv_stop from inside a chunk
+   callback. *)
+Theorem C10_recv_buffers_returned :
+  forall fx beh rbeh conn mm o r al ops,
+  no_stop_in_chunk_cb rbeh ->
+  exists nb, bmon_run bmon0 (snd (run fx beh rbeh (init conn mm o r al) ops)) = Some (None, nb).
+Proof. exact model_accepted_buffers. Qed.
+Print Assumptions C10_recv_buffers_returned.
+
+(* The same for one POLLIN dispatch from any state. *)
+Theorem C10_recv_buffers_returned_dispatch :
+  forall fx rbeh s nb,
+  no_stop_in_chunk_cb rbeh -> (nb <= next_buf s)%nat ->
+  exists nb', bmon_run (None, nb) (snd (udp_recvmsg fx rbeh s)) = Some (None, nb') /\
+              (nb' <= next_buf (fst (udp_recvmsg fx rbeh s)))%nat.
+Proof. exact recv_buffers_returned_local. Qed.
+Print Assumptions C10_recv_buffers_returned_dispatch.
+
+(* ---- the hypotheses are satisfiable, the statements are not vacuous ---- *)
+
+(* a send behind a forced EAGAIN, two more queued, POLLOUT: the OS rejects the first
+   (EPERM) and takes the other two; a fourth is queued behind EAGAIN and the handle is
+   closed: statuses -1, 0, 0, UV_ECANCELED (the same for both index arithmetics) *)
+Example C10_example_send :
+  forall fx,
+  let tr := snd (run fx (fun _ => [OGet]) (fun _ _ => [])
+                     (init false false [SErr 11; SErr 1; SRet 2; SErr 11] [] [])
+                     [OSend 5 true; OSend 6 true; OSend 7 true; ORun false true; OSend 8 true;
+                      OClose; ORun false false]) in
+  accepts tr = true /\ handed tr = [1; 2]%nat /\
+  cbs tr = [0; 1; 2; 3]%nat /\
+  In (ECb 0 (-1)) tr /\ In (ECb 3 UV_ECANCELED) tr /\ In (EGet 13 2 true) tr.
+Proof. intros [|]; vm_compute; intuition. Qed.
+
+(* receive with UV_UDP_RECVMMSG: two datagrams in a 128 KiB buffer, then EAGAIN *)
+Example C10_example_recv :
+  let rbeh := fun (_ : nat) (_ : bool) => [OGet] in
+  no_stop_in_chunk_cb rbeh /\
+  snd (run sendmsgv_fixed (fun _ => []) rbeh
+           (init false true [] [RMsgs [mkM 0 10 false; mkM 1 70000 true]; RErr 11] [131072; 131072])
+           [ORecvStart; ORun true false]) =
+  [ERecvStart 0; ERun true false;
+   EAlloc 0 131072; ERSys true 2 (RMsgs [mkM 0 10 false; mkM 1 70000 true]);
+   ERecv 0 (Chunk 0) 10 (Some 0%nat) 8; EGet 0 0 true;
+   ERecv 0 (Chunk 1) 70000 (Some 1%nat) 10; EGet 0 0 true;
+   ERecv 0 Whole 0 None 16; EGet 0 0 true;
+   EAlloc 1 131072; ERSys true 2 (RErr 11); ERecv 1 Whole 0 None 0; EGet 0 0 true].
+Proof. split; [intros k [H|[]]; discriminate H|vm_compute; reflexivity]. Qed.
+
+(* Observations outside the precondition (DESIGN.md section 3 item 15).
+   uv_udp_recv_stop inside a chunk callback: the buffer is never handed back. *)
+Example C10_recv_stop_in_chunk_cb_keeps_buffer :
+  bmon_run bmon0
+    (snd (run sendmsgv_fixed (fun _ => []) (fun k _ => if (k =? 0)%nat then [ORecvStop] else [])
+              (init false true [] [RMsgs [mkM 0 10 false; mkM 1 10 false]] [131072])
+              [ORecvStart; ORun true false])) = Some (Some (0%nat, true, true), 1%nat).
+Proof. vm_compute. reflexivity. Qed.
+
+(* An alloc_cb result below 64 KiB in recvmmsg mode: zero chunks, recvmmsg(vlen 0) answers
+   0, the budget of 32 is never used up: the loop goes on as long as alloc_cb and the
+   kernel keep answering (here: three rounds for three answers). *)
+Example C10_recvmmsg_small_buffer_spins :
+  map (fun e => match e with EAlloc b _ => Some b | _ => None end)
+      (snd (run sendmsgv_fixed (fun _ => []) (fun _ _ => [])
+                (init false true [] [RMsgs []; RMsgs []; RMsgs []] [100; 100; 100; 100])
+                [ORecvStart; ORun true false])) =
+  [None; None; Some 0; None; None; Some 1; None; None; Some 2; None; None;
+   Some 3; None; None]%nat.
+Proof. vm_compute. reflexivity. Qed.
